@@ -71,6 +71,7 @@ fn scenario(sc: &Value) -> Value {
         let presend = sc["presend"].as_array().and_then(|a| a.get(r - 1)).and_then(|b| b.as_i64()).unwrap_or(0).min(cnt);
         let start = start.clone();
         let send_errors = send_errors.clone();
+        let burst_after_us = sc["burst_after_us"].as_i64().unwrap_or(0);
         sender_threads.push(std::thread::spawn(move || {
             verif::set_actor(300 + r as i64);
             let mut rng = StdRng::seed_from_u64(seed * 1000 + r as u64);
@@ -85,8 +86,14 @@ fn scenario(sc: &Value) -> Value {
                 x += 1;
             }
             start.wait();
+            if burst_after_us > 0 {
+                // let the slow handler start first, then send without pauses
+                std::thread::sleep(Duration::from_micros(if r == 1 { 0 } else { burst_after_us as u64 }));
+            }
             while x <= cnt {
-                jitter(&mut rng);
+                if burst_after_us == 0 {
+                    jitter(&mut rng);
+                }
                 verif::emit("h.send", &[("r", r as i64), ("x", x)]);
                 if tx.send(x as u64).is_err() {
                     send_errors.fetch_add(1, Ordering::SeqCst);
@@ -113,6 +120,7 @@ fn scenario(sc: &Value) -> Value {
         let xbeam = xbeam.clone();
         let start = start.clone();
         let after_shutdown = after_shutdown.clone();
+        let cbsleeps: Vec<i64> = sc["cbsleep"].as_array().map(|a| a.iter().filter_map(|x| x.as_i64()).collect()).unwrap_or_default();
         proxy_threads.push(std::thread::spawn(move || {
             verif::set_actor(200 + p);
             let mut rng = StdRng::seed_from_u64(seed * 77 + p as u64);
@@ -130,6 +138,7 @@ fn scenario(sc: &Value) -> Value {
                         } else {
                             let guard = Guard(r);
                             let calls = calls.clone();
+                            let cbsleep = cbsleeps.get(r as usize - 1).copied().unwrap_or(0);
                             proxy.add_route(
                                 rx.to_opaque(),
                                 Box::new(move |m| {
@@ -137,10 +146,14 @@ fn scenario(sc: &Value) -> Value {
                                     let x = m.to::<u64>().unwrap_or(0);
                                     verif::emit("h.cb", &[("r", r), ("x", x as i64)]);
                                     calls[r as usize - 1].lock().unwrap().push(x);
+                                    if cbsleep > 0 && x == 1 {
+                                        std::thread::sleep(Duration::from_micros(cbsleep as u64));
+                                    }
                                 }),
                             );
                         }
                     },
+                    "sleep" => std::thread::sleep(Duration::from_micros(geti(&op, "us") as u64)),
                     "shutdown" => {
                         proxy.shutdown();
                         // downstream consumers observe disconnection as soon as shutdown has returned
@@ -186,7 +199,23 @@ fn scenario(sc: &Value) -> Value {
         // not a stopping scenario: the router stays alive (its proxy is deliberately leaked)
         std::mem::forget(proxy);
     }
-    // let the router thread work off what is queued
+    // let the router thread work off what is queued: up to 5 s for everything that was sent to arrive
+    // (a router that has been stopped delivers nothing more; then the short wait is all there is)
+    let stopping = dropproxy || sc["stop"].as_str().map(|s| s == "shutdown").unwrap_or(false);
+    let t0 = std::time::Instant::now();
+    while !stopping && !hang && t0.elapsed() < Duration::from_secs(5) {
+        let mut all = true;
+        for r in 1..=n {
+            let have = calls[r - 1].lock().unwrap().len() + xbeam.lock().unwrap()[r - 1].as_ref().map(|x| x.len()).unwrap_or(0);
+            if (have as i64) < msgs[r - 1] {
+                all = false;
+            }
+        }
+        if all {
+            break;
+        }
+        std::thread::sleep(Duration::from_millis(5));
+    }
     std::thread::sleep(Duration::from_millis(120));
     let mut routes = Vec::new();
     for r in 1..=n {
